@@ -244,6 +244,9 @@ func (c *crashCtx) checkImage(d *simfs.Disk, admissible []*refLog, replay []stri
 	first, last, entries, rerr := readAll(w)
 	if rerr != nil {
 		c.add("C02", "an index inside [FirstIndex, LastIndex] is not readable after recovery", rerr.Error(), replay)
+		if len(admissible[0].entries) > 0 {
+			c.add("C01", "the log holding acknowledged entries is not readable after recovery", rerr.Error(), replay)
+		}
 		c.usabilityProbe(w, d, replay)
 		return nil, nil
 	}
@@ -533,8 +536,11 @@ func (c *crashCtx) exploreCrashes(start *simfs.Disk, base *refLog, ops []string,
 				if ok {
 					c.cleanRestart(img, g2, append(rp, "kind: process crash"))
 				}
-				if ok && depth > 1 && r.Intn(3) == 0 {
-					c.exploreCrashes(img, g2, []string{"open", fmt.Sprintf("store %s", logTok(&raft.Log{Index: g2.lastIndex() + 1, Term: 10, Data: []byte("chain")}))}, r, depth-1, append(rp, "kind: process crash", "continued"), false)
+				// a process crash that left un-fsynced bytes or directory entries behind is always followed up: the
+				// restarted process must make what it recovered durable before building on it (a later power loss
+				// would otherwise take acknowledged entries with it)
+				if ok && depth > 1 && (r.Intn(3) == 0 || hasPending(tr) || len(tr.NonDurableEntries()) > 0) {
+					c.exploreCrashes(img, g2, []string{"open", fmt.Sprintf("store %s", logTok(&raft.Log{Index: g2.lastIndex() + 1, Term: 10, Data: []byte("chain")}))}, r, depth-1, append(rp, "kind: process crash", "continued"), hasPending(tr))
 				}
 			}
 		}
